@@ -806,6 +806,11 @@ class SymEval:
         return top(type(e).__name__)
 
     def index(self, base, idx):
+        if idx[0] == "ite" and is_const(idx[2]) and is_const(idx[3]):
+            return self.ite(idx[1], self.index(base, idx[2]), self.index(base, idx[3]))
+        if idx[0] == "cmp" and base[0] != "gval" and not is_const(base):
+            # x[cond] with a boolean index selects x[1] / x[0]
+            return self.ite(idx, self.index(base, const(1)), self.index(base, const(0)))
         if idx[0] == "slicespec":
             if is_const(base) and all(is_const(x) for x in idx[1:]):
                 try:
